@@ -81,6 +81,20 @@ def run_case(item):
         ref = Ref(kind, variant, singles, order, tuple(IR.idx_ir(s) for s in occ),
                   tuple(IR.idx_ir(s) for s in virt))
         res["api"] = f"GroundState(Operators('{variant}'), first_order_singles={singles}).amplitude({order}, '{space}', '{idx}')"
+    elif kind == "amplitude_again":
+        # a second request for the same order and class on the same object with other (overlapping,
+        # shifted or swapped) target index names
+        space, idx0, idx = extra
+        gs.amplitude(order, space, idx0)
+        out = gs.amplitude(order, space, idx)
+        syms = get_symbols(idx)
+        occ = [s for s in syms if s.space == "occ"]
+        virt = [s for s in syms if s.space == "virt"]
+        target = syms
+        ref = Ref("amplitude", variant, singles, order, tuple(IR.idx_ir(s) for s in occ),
+                  tuple(IR.idx_ir(s) for s in virt))
+        res["api"] = (f"gs = GroundState(Operators('{variant}'), first_order_singles={singles}); "
+                      f"gs.amplitude({order}, '{space}', '{idx0}'); gs.amplitude({order}, '{space}', '{idx}')")
     elif kind == "expec":
         npart = extra
         out = gs.expectation_value(order, npart)
@@ -188,6 +202,12 @@ def main():
         for singles in (False, True):
             items.append(("amplitude", variant, singles, 3, ("ph", "ia"), (3, 3)))
         items.append(("amplitude", variant, False, 3, ("pphh", "ijab"), (4, 4), 3 if quick else 12))
+    for variant in ("mp", "re"):
+        for n_, sp_, i0_, i1_ in ((1, "pphh", "ijab", "jkbc"), (1, "pphh", "ijab", "jiab"), (2, "pphh", "ijab", "jkbc"),
+                                  (2, "ph", "ia", "jb"), (2, "pphh", "jkbc", "ijab")):
+            if quick and variant == "re" and n_ == 2:
+                continue
+            items.append(("amplitude_again", variant, False, n_, (sp_, i0_, i1_), (2, 2)))
     if not quick:
         # fourth order expectation value: first order with two overlap factors in the norm factor
         items.append(("expec", "mp", False, 4, 1, (2, 2)))
